@@ -1,2 +1,31 @@
-import SuitVerif
-def main : IO Unit := IO.println "ok"
+import Driver.Util
+import Driver.Cache
+/-! JSON-lines driver: one request object per line on stdin, one response per line on stdout.
+`{"op": name, ...}` → `{"ok": ...}` | `{"err": class}` | `{"bad": message}` (malformed request). -/
+open Lean Driver
+
+def handlers : List (String → Json → Option (M Json)) := [CacheOps.handle]
+
+def dispatch (j : Json) : Json :=
+  match strField j "op" with
+  | .error e => Json.mkObj [("bad", .str e)]
+  | .ok op =>
+    match handlers.findSome? (fun h => h op j) with
+    | none => Json.mkObj [("bad", .str s!"unknown op {op}")]
+    | some (.ok r) => r
+    | some (.error e) => Json.mkObj [("bad", .str e)]
+
+partial def loop (hin hout : IO.FS.Stream) : IO Unit := do
+  let line ← hin.getLine
+  if line.isEmpty then return ()
+  let t := line.trimAscii.toString
+  if t.isEmpty then loop hin hout else
+  let out := match Json.parse t with
+    | .error e => Json.mkObj [("bad", .str s!"json: {e}")]
+    | .ok j => dispatch j
+  hout.putStrLn out.compress
+  hout.flush
+  loop hin hout
+
+def main : IO Unit := do
+  loop (← IO.getStdin) (← IO.getStdout)
